@@ -20,6 +20,9 @@ macro_rules! dispatch {
     ($id:expr, $f:ident ( $($a:expr),* )) => {
         match $id {
             "C01" => $f::<props::c01::C01>($($a),*),
+            "C03" => $f::<props::c03::C03>($($a),*),
+            "C05" => $f::<props::c05::C05>($($a),*),
+            "C14" => $f::<props::c14::C14>($($a),*),
             other => {
                 eprintln!("unknown or unclaimed property {other}");
                 2
